@@ -292,7 +292,7 @@ class Ctx:
             cov["states"] = int(max(self.states, 1))
             cov["transitions"] = int(max(self.transitions, 1))
             cov["traces_validated_against_impl"] = int(self.traces)
-        cov.update(jsonable(self.cov))
+        cov.update(readable(self.cov))
         ev = {
             "property_id": self.pid,
             "tier": self.tier,
